@@ -157,7 +157,7 @@ class RuleDBBase(RuleDBAbstract):
 
     def contains(self, start: int, ends: Tuple[int, ...]) -> bool:
         """Return true if the rule start -> ends is in the database."""
-        key = (start, sorted(ends))
+        key = (start, tuple(sorted(ends)))
         return key in self.rule_to_strategy or key in self.eqv_rule_to_strategy
 
     def status(self, elaborate: bool) -> str:
